@@ -474,6 +474,15 @@ func (ip *Interp) eval(f *frame, v ssa.Value) Value {
 				return g
 			}
 		}
+		if cell == nil && x.Pkg != nil && ip.InScope != nil && !initStores(x) {
+			// declared without an initializer (nothing in the package initializer writes it): its zero value
+			if et, ok := x.Type().Underlying().(*types.Pointer); ok {
+				switch et.Elem().Underlying().(type) {
+				case *types.Slice, *types.Map, *types.Basic:
+					cell = &Cell{V: ip.ZeroOf(et.Elem())}
+				}
+			}
+		}
 		if cell == nil {
 			cell = &Cell{V: NewTok("global:"+x.Name(), "global")}
 		}
@@ -800,6 +809,44 @@ func (ip *Interp) call(f *frame, site ssa.CallInstruction, args []Value) Value {
 		undecided("call of %s not modelled", fv)
 	default:
 		undecided("dynamic call of %s", Show(fv))
+	}
+	return nil
+}
+
+// initStores: the package initializer (with the functions it is made of) stores into g.
+func initStores(g *ssa.Global) bool {
+	init := g.Pkg.Func("init")
+	if init == nil {
+		return false
+	}
+	var visit func(fn *ssa.Function, depth int) bool
+	visit = func(fn *ssa.Function, depth int) bool {
+		if fn == nil || depth > 2 {
+			return false
+		}
+		for _, b := range fn.Blocks {
+			for _, in := range b.Instrs {
+				switch x := in.(type) {
+				case *ssa.Store:
+					if x.Addr == ssa.Value(g) {
+						return true
+					}
+				case *ssa.Call:
+					if cal := x.Common().StaticCallee(); cal != nil && cal.Pkg == g.Pkg && visit(cal, depth+1) {
+						return true
+					}
+				}
+			}
+		}
+		return false
+	}
+	return visit(init, 0)
+}
+
+// GlobalValue: what the interpreted code has stored in a package-level variable so far (nil if it was never touched).
+func (ip *Interp) GlobalValue(g *ssa.Global) Value {
+	if cell, ok := ip.globals[g].(*Cell); ok {
+		return cell.V
 	}
 	return nil
 }
